@@ -686,11 +686,29 @@ package badger
 //@   assert[lock-until-sent] before call sendToWriteCh : held(txn.db.orc.writeChLock) && !ret1(newCommitTs#1)
 //@   assert[fin-key] before call KeyWithTs : arg0 == txnKey && arg1 == ret0(newCommitTs#1)
 //@   assert[fin-value] before call FormatUint : arg0 == ret0(newCommitTs#1) && arg1 == 10
+//@   assert[marker-only-for-whole-transactions] before call FormatUint : keepTogether
+//@   assert[every-duplicate-versioned] before call setVersion#2 : arg0 == txn.duplicateWrites[rangeindex#2 + 1]
 //@   assert[done-on-error] before call doneCommit : arg1 == ret0(newCommitTs#1)
 //@   assert[conflict-sends-nothing] before return : ret1(newCommitTs#1) ==> result1 == ErrConflict && !called(sendToWriteCh#1)
 //@   assert[duplicates-before-pending] before call processEntry#1 : arg0 == txn.duplicateWrites[rangeindex#3 + 1]
 //@   assert[send-error-leaves-no-trace] before return : called(sendToWriteCh#1) && ret1(sendToWriteCh#1) != nil && txn.db.orc.detectConflicts && len(txn.db.orc.committedTxns) >= 1 ==> txn.db.orc.committedTxns[len(txn.db.orc.committedTxns)-1].ts != ret0(newCommitTs#1)
 //@   assert[send-error-returned] before return : called(sendToWriteCh#1) && ret1(sendToWriteCh#1) != nil ==> called(doneCommit#1) && result1 == ret1(sendToWriteCh#1)
+
+// The two per-entry steps of a commit: an entry without explicit version gets the commit
+// timestamp, one with a version keeps it (and then no transaction markers are written); the
+// entry's key gets its version suffix, the transaction bit is set exactly when markers are
+// written, and the entry is queued.
+//@ func (*Txn).commitAndSend.setVersion
+//@   props C03 C36 C27
+//@   light
+//@   ensures[unversioned-gets-commit-ts] old(e.version) == 0 ==> e.version == commitTs && keepTogether == old(keepTogether)
+//@   ensures[explicit-version-kept] old(e.version) != 0 ==> e.version == old(e.version) && !keepTogether
+
+//@ func (*Txn).commitAndSend.processEntry
+//@   props C03 C36 C27
+//@   light
+//@   assert[key-at-entry-version] before call KeyWithTs : arg0 == e.Key && arg1 == e.version
+//@   assert[queued-last] before call append : len(arg1) == 1 && arg1[0] == e && e.Key == ret(KeyWithTs#1) && (keepTogether ==> e.meta&bitTxn != 0)
 
 // ---- DropPrefix (C29): "no key starting with the prefix" is a statement about user keys ----
 
